@@ -1,7 +1,8 @@
+//go:build c07
+
 package main
 
 import (
-	"encoding/hex"
 	"fmt"
 	"math/rand"
 	"sort"
@@ -31,14 +32,6 @@ func c07RandSeq(rng *rand.Rand, n int, upper bool) []byte {
 		}
 	}
 	return s
-}
-
-func unhx(s string) ([]byte, bool) {
-	if s == "-" {
-		return []byte{}, true
-	}
-	b, err := hex.DecodeString(s)
-	return b, err == nil
 }
 
 func (c07) Gen(rng *rand.Rand, tier string, emit func(string)) {
